@@ -53,7 +53,7 @@ GRAPHS = {
 }
 
 
-@family("C16.link", props=["C16", "C14"], functions=[L + "::Linker.__init__", L + "::Linker.AddModule", L + "::Linker.Link", L + "::MemoryModuleLoader.Load", L + "::MemoryModuleLoader.AddModule",
+@family("C16.link", props=["C16", "C14", "C05"], functions=[L + "::Linker.__init__", L + "::Linker.AddModule", L + "::Linker.Link", L + "::MemoryModuleLoader.Load", L + "::MemoryModuleLoader.AddModule",
                                                L + "::Module.AddImport", L + "::Module.CreateFunction", L + "::Module.CreateGlobalVariable", L + "::Program"],
         assumptions=["the loader is a finite map name -> module; import graphs enumerated: single, one import, chain of 4, diamond, two roots sharing an import, a module imported along two paths; every order of adding the root modules; set iteration order is whatever CPython gives for the run (hash seed 0) AND its reverse (A5)"])
 def c16_link(R):
